@@ -147,4 +147,11 @@ impl OptTokExt for Option<Token> {
     fn is_some_and_ascii_whitespace(self) -> bool { unimplemented!() }
 }
 
+// R32: `assert!` / `assert_eq!` / `assert_ne!` (always-on run-time assertions: a panic when false)
+// are written as calls of this function; its precondition is the asserted condition
+#[verifier::external_body]
+pub fn runtime_assert(b: bool)
+    requires b
+{ unimplemented!() }
+
 pub struct P { pub toks: Lexer }
